@@ -657,6 +657,20 @@ def vacuity_check(unit, units):
 
 
 def verify_unit(unit, units, tier='quick', jobs=4, log=None):
+    """full pipeline for one unit; a refutation that rests on a call of a function the model does not define is an extraction
+    break (the extractor rendered a library call it has no model for), never a violation"""
+    res = _verify_unit(unit, units, tier=tier, jobs=jobs, log=log)
+    if res.get('status') == 'refuted':
+        nomodel = [f for f in res.get('failed', []) if 'undefined function should be unreachable' in (f.get('text') or '')]
+        if nomodel:
+            names = sorted(set(f['obligation'].split('.')[0] for f in nomodel))
+            res['status'] = 'undecided'
+            res['failed'] = []
+            res['reason'] = 'EXTRACTION-BREAK: the body calls %s, for which the unit has no model' % ', '.join(names)
+    return res
+
+
+def _verify_unit(unit, units, tier='quick', jobs=4, log=None):
     """full pipeline for one unit; returns result dict"""
     name = unit['name']
     outdir = os.path.join(WORK, 'units', name)
